@@ -493,6 +493,47 @@ def sigTypesAgree (noDeps : Bool) (skip : Nat) (src : Sig) (g : Sig) : Bool :=
   g.generics.params == src.generics.params.filter GParam.isLifetime &&
   g.const_ == src.const_ && g.unsafe_ == src.unsafe_ && g.abi == src.abi && g.variadic == src.variadic
 
+/-- a generated trait method declaration has the source function's call type -/
+def declSigOk (noDeps : Bool) (src : Sig) (m : GenMember) : Bool :=
+  match m.sig? with
+  | some g => sigTypesAgree noDeps 0 src g && g.inputs.head? == expectedReceiver noDeps src
+  | none => false
+
+/-- .. and so has the delegating method, which also keeps asyncness and the return type -/
+def implSigOk (noDeps : Bool) (src : Sig) (m : GenMember) : Bool :=
+  match m.sig? with
+  | some g => sigTypesAgree noDeps 0 src g && g.inputs.head? == expectedReceiver noDeps src &&
+              g.output == src.output && g.async_ == src.async_
+  | none => false
+
+/-- the where-predicate bounds the dependency's own type parameter (it becomes a bound on `Self`: C04) -/
+def aboutDep (noDeps : Bool) (src : Sig) (q : WherePred) : Bool :=
+  match q, (if noDeps then none else src.depGenericName) with
+  | .ty _ (.path _ _ 1 f _) _ _, some d => f == d
+  | _, _ => false
+
+/-- every where-predicate that is not about the dependency parameter stays in scope: on the
+    enclosing trait / impl (`outer`) or on the method -/
+def predsInScope (noDeps : Bool) (outer : List WherePred) (src : Sig) (m : GenMember) : Bool :=
+  match m.sig? with
+  | some g => src.generics.preds.all (fun q => aboutDep noDeps src q || outer.contains q || g.generics.preds.contains q)
+  | none => false
+
+/-- generic scoping: every lifted parameter is declared on the trait, nothing else is, and the
+    impl names them in order -/
+def scopingOk (noDeps : Bool) (srcs : List Sig) (t : GenTrait) (im : GenImpl) : Bool :=
+  srcs.all (fun src => (liftedParams noDeps src).all (fun q => t.params.contains q)) &&
+  t.params.all (fun q => srcs.any (fun src => (liftedParams noDeps src).contains q)) &&
+  im.traitRef == [i t.ident] ++ angle (t.params.map GParam.argToks)
+
+/-- a delegating method of an impl block: `__impl` first (after `&self` for dynamic dispatch) -/
+def implBlockSigOk (dynRef : Bool) (src : Sig) (m : GenMember) : Bool :=
+  match m.sig? with
+  | some g => sigTypesAgree false 1 src g && g.output == src.output && g.async_ == src.async_ &&
+      ((typedArgs g.inputs).head? == some implReceiverArg) &&
+      (if dynRef then g.inputs.head? == expectedReceiver false src else g.inputs.head? == some implReceiverArg)
+  | none => false
+
 def P_C03 (v : Variant) (attr : Toks) (item : Item) (view : View) : Bool :=
   match item with
   | .fn _ | .mod_ _ =>
@@ -500,45 +541,27 @@ def P_C03 (v : Variant) (attr : Toks) (item : Item) (view : View) : Bool :=
       match mainTrait? view, mainImpl? view with
       | some t, some im =>
           let srcs := item.sourceFns.map (·.sig)
-          zipAll (fun src m => match m.sig? with
-            | some g => sigTypesAgree noDeps 0 src g && g.inputs.head? == expectedReceiver noDeps src
-            | none => false) srcs t.members &&
-          zipAll (fun src m => match m.sig? with
-            | some g => sigTypesAgree noDeps 0 src g && g.inputs.head? == expectedReceiver noDeps src &&
-                        g.output == src.output && g.async_ == src.async_
-            | none => false) srcs im.members &&
-          -- every where-predicate that is not about the dependency parameter stays in scope
-          zipAll (fun src m => match m.sig? with
-            | some g => src.generics.preds.all (fun q =>
-                (match q, (if noDeps then none else src.depGenericName) with
-                 | .ty _ (.path _ _ 1 f _) _ _, some d => f == d
-                 | _, _ => false) || t.preds.contains q || g.generics.preds.contains q)
-            | none => false) srcs t.members &&
-          zipAll (fun src m => match m.sig? with
-            | some g => src.generics.preds.all (fun q =>
-                (match q, (if noDeps then none else src.depGenericName) with
-                 | .ty _ (.path _ _ 1 f _) _ _, some d => f == d
-                 | _, _ => false) || im.preds.contains q || g.generics.preds.contains q)
-            | none => false) srcs im.members &&
-          -- generic scoping: every lifted parameter is declared on the trait, the impl names them in order
-          srcs.all (fun src => (liftedParams noDeps src).all (fun q => t.params.contains q)) &&
-          t.params.all (fun q => srcs.any (fun src => (liftedParams noDeps src).contains q)) &&
-          im.traitRef == [i t.ident] ++ angle (t.params.map GParam.argToks)
+          zipAll (declSigOk noDeps) srcs t.members &&
+          zipAll (implSigOk noDeps) srcs im.members &&
+          zipAll (predsInScope noDeps t.preds) srcs t.members &&
+          zipAll (predsInScope noDeps im.preds) srcs im.members &&
+          scopingOk noDeps srcs t im
       | _, _ => false
   | .impl m =>
       match parseImplAttr attr, mainImpl? view with
       | .ok a, some im =>
-          let srcs := item.sourceFns.map (·.sig)
-          let skip := 1
-          zipAll (fun src g => match g.sig? with
-            | some g => sigTypesAgree false skip src g && g.output == src.output && g.async_ == src.async_ &&
-                ((typedArgs g.inputs).head? == some implReceiverArg) &&
-                (if a.dynRef then g.inputs.head? == expectedReceiver false src else g.inputs.head? == some implReceiverArg)
-            | none => false) srcs im.members &&
+          zipAll (implBlockSigOk a.dynRef) (item.sourceFns.map (·.sig)) im.members &&
           im.selfTy == m.selfTy &&
           (m.traitPath ++ [p '<', i entraitT]).isPrefixOf im.traitRef
       | _, _ => false
   | .trait _ => true
+
+/-- the type parameters of one signature have pairwise different names (a duplicate is E0403) -/
+def Sig.typeParamsDistinct (s : Sig) : Bool :=
+  nodup ((s.generics.params.filter GParam.isType).map GParam.name)
+
+/-- valid generics in every source function -/
+def Item.genericsOk (item : Item) : Bool := item.sourceFns.all (fun f => f.sig.typeParamsDistinct)
 
 /-- trait-level generic names are unique (a duplicate is E0403) -/
 def traitParamsNodup (view : View) : Bool :=
